@@ -40,8 +40,8 @@ CATALOGUE = [
     ("c07-batch-write-unlocked", "C07", "dnsrocks/dnsdata/rdb/rdb.go",
      "\trdb.writeMutex.Lock()\n\tdefer rdb.writeMutex.Unlock()\n\tdbValues, errors := rdb.db.GetMulti(rdb.readOptions, uniqueKeys)", "\tdbValues, errors := rdb.db.GetMulti(rdb.readOptions, uniqueKeys)",
      "ExecuteBatch does its read-modify-write without the write lock: concurrent batches lose values"),
-    ("c08-deletes-before-adds", "C08", "dnsrocks/dnsdata/rdb/rdb.go",
-     None, None, "batch integration applies deletions before additions"),
+    ("c15-deletes-before-adds", "C15", "dnsrocks/dnsdata/rdb/rdb.go",
+     None, None, "batch integration applies deletions before additions (invisible to consistent line diffs, hence a C15 case)"),
     ("c08-delvalue-drops-tail", "C08", "dnsrocks/dnsdata/rdb/rdb_util.go",
      "\t\t\t\tcopy(data[i:], data[i+chunkLen:])\n", "\t\t\t\tcopy(data[i:], data[i+chunkLen-1:])\n",
      "removing a value that is not the last one corrupts the rest of the list"),
@@ -95,7 +95,7 @@ CATALOGUE = [
 
 def special(mid, root):
     """Edits that are easier to express as code."""
-    if mid == "c08-deletes-before-adds":
+    if mid == "c15-deletes-before-adds":
         p = os.path.join(root, "dnsrocks/dnsdata/rdb/rdb.go")
         s = open(p).read()
         a = s.index("\t\tfor ; aOffset < len(batch.addedPairs) && bytes.Equal(batch.addedPairs[aOffset].key, key); aOffset++ {")
